@@ -6,7 +6,7 @@ Extraction "model.ml"
   op_bool dispatch assemble reassemble shape_ok
   raw raw_f expected expected_f expected_many many_f in_closure inG prep mem_p areal_p lineal_p arrange ar_wits arr_area
   ctx_witnesses ctx_segs ctx_pts witnesses_nb wpt wdim wnb
-  judge_with judge judge_many verdict_ok disagreements agrees same_set
+  rings_closed_b judge_with judge judge_many verdict_ok disagreements agrees same_set
   ctx_area result_area isolated_count nonredundant
   same_operand_hole_meets_sibling_interior in_covered_hole same_operand_areal_members_overlap raw_absent in_areal
   clearance_ok snap_geom snap_pt dist2 seg_closest geom_mapxy pt_red operand_vertices operand_segs magnitude moved_count bbox
